@@ -353,8 +353,13 @@ func main() {
 		ev["assumptions"] = []string{}
 	}
 	eb, _ := json.MarshalIndent(ev, "", " ")
-	os.MkdirAll(filepath.Join(root, "evidence"), 0o755)
-	evPath := filepath.Join(root, "evidence", id+".json")
+	evDir := filepath.Join(root, "evidence")
+	if os.Getenv("VERIF_MODFILE") != "" {
+		// calibration run against a scratch copy of the repository: never overwrite the evidence of /repo itself
+		evDir = filepath.Join(root, ".work", "scratch-evidence")
+	}
+	os.MkdirAll(evDir, 0o755)
+	evPath := filepath.Join(evDir, id+".json")
 	if replay == "" && onlyStage == "" {
 		if err := os.WriteFile(evPath, append(eb, '\n'), 0o644); err != nil {
 			die(2, "write evidence: %v", err)
